@@ -235,6 +235,12 @@ for _shape, _ops, _sql in (("join_left", ["HashJoin/exec"], "SELECT * FROM (SELE
               "what": "a LIMIT that is satisfied early above this shape leaves sibling partitions waiting on the operator's cross-partition barrier forever (>= 2 partitions, every schedule policy; the production executor hangs too). One executor-level defect (pipelines cut short by an exhausted downstream operator never finalize their upstream operators) seen through four shapes: LEFT hash join, LEFT nested-loop join, scalar subquery (left join), UNION ALL over a grouped DISTINCT aggregate. Of the 21 barrier-bearing shapes of C04 only these hang",
               "example": _sql, "also": ["C03", "C15"]})
 
+case("C03", "alias-ref-to-subquery-item-duplicates-rows", "a select-list alias reference to an earlier item that contains a correlated scalar subquery makes the subquery's dependent join appear twice; with enable_hash_joins=false (nested-loop joins) every outer row is returned twice (correct with hash joins). Same root as derived-table-with-alias-reference-inlined-twice-loses-row: alias references clone the bound expression including its subquery",
+     ["CREATE TEMP TABLE t0 (a TEXT)", "INSERT INTO t0 VALUES ('ab'), ('abc'), ('x')", "SET enable_hash_joins TO false"],
+     "SELECT v.x, (SELECT min(20) FROM t0 s WHERE s.a <> v.y) AS z14, (z14 + 1) AS z16 FROM (VALUES ('abc', 'k'), ('B', 'ab')) v(x, y)",
+     {"outcome": "rows", "rows": [["abc", 20, 21], ["B", 20, 21]]}, {"outcome": "rows", "rows": [["abc", 20, 21], ["B", 20, 21], ["abc", 20, 21], ["B", 20, 21]]},
+     ["C01", "C06", "C09"])
+
 case("C07", "grouping-function-argument-order", "GROUPING(args) ignores the order of its arguments and mishandles expression keys: the bitmask follows the position of the keys in the GROUP BY list instead of the argument order documented in docs/sql/query-syntax/group-by.md (rightmost argument = least significant bit)",
      ["CREATE TEMP TABLE g (k INT)", "INSERT INTO g VALUES (1)"],
      "SELECT (k % 2) AS z2, grouping((k % 2), k) AS z3 FROM g GROUP BY CUBE (k, (k % 2))",
